@@ -58,6 +58,7 @@ def instances(tier):
     out.append({"kind": "zero_zones", "gen": 5, "acs": 1})
     out.append({"kind": "zero_zones", "gen": 5, "acs": 2})
     out.append({"kind": "uneven", "gen": 5})
+    out.append({"kind": "gap", "gen": 5})
     out.append({"kind": "uneven", "gen": 4})
     return out
 
@@ -215,6 +216,12 @@ def run(ctx, p):
             inst.ac_status[a] = r5.build_ac_status(a, 1, 4, 2, 120, 0, 0, 0, 0, 740, 0)
             inst.timers[a] = (1, 0, 0, 1, 0, 0)
         inst.zero_zone_echo = True
+    elif kind == "gap":
+        # AT5 zone numbers with a gap: zones 0, 1, 3, 4; the second AC serves 3-4
+        inst = Installation.simple(5, n_acs=2, zones_per_ac=2)
+        inst.zones = {0: "Zone0", 1: "Zone1", 3: "Zone3", 4: "Zone4"}
+        inst.zone_status = {n: r5.build_zone_status(n, 1, 1, 100, 120, 1, 730, 0, 0) for n in inst.zones}
+        inst.acs[1].update(start=3, count=2)
     elif kind == "uneven":
         # ACs with different zone counts, second AC without zones
         inst = Installation.simple(p["gen"], n_acs=2, zones_per_ac=3)
